@@ -104,4 +104,12 @@ def run(ctx):
         ctx.check('rol/ror are rotations', bad is None, 'width %s value %s amount %s: %s' % (bad or (0, 0, 0, 0)), ctx.where(OPS, 'rol'))
     ctx.guard('rotations', rot)
 
+    ctx.rule('C08 reflected operators keep their operand order (dispatch depends on it)')
+    ORD = T.Opts(ordered=True)
+    cmp_fn(ctx, 'Bits.__rand__ ordered', BITS, 'Bits.__rand__', S.BITS_ROP % ('__rand__', '&'), ORD)
+    cmp_fn(ctx, 'Bits.__ror__ ordered', BITS, 'Bits.__ror__', S.BITS_ROP % ('__ror__', '|'), ORD)
+    cmp_fn(ctx, 'Bits.__rxor__ ordered', BITS, 'Bits.__rxor__', S.BITS_ROP % ('__rxor__', '^'), ORD)
+    cmp_fn(ctx, 'Bits.__radd__ ordered', BITS, 'Bits.__radd__', S.BITS_ROP % ('__radd__', '+'), ORD)
+    cmp_fn(ctx, 'Bits.__rsub__ ordered', BITS, 'Bits.__rsub__', S.BITS_RSUB, ORD)
+
     dependencies(ctx, ['crysp/bits.py', 'crysp/utils/operators.py'], 'C08')
